@@ -27,4 +27,11 @@ def jobs(tier, seed):
                 continue
             j["family"] = algo + ":" + j["family"]
             J.append(j)
+    if tier == "quick":
+        # the primitives flavour only accepts boxes among the polytopes: give it every sweep on the box pairs
+        P = GC.POLY_CORPUS
+        for (i, k) in ((0, 7), (7, 0), (7, 7)):
+            for si in range(GC.N_SWEEPS_QUICK):
+                J.append({"family": "nesterov_prim:box_box", "args": {"a": P[i], "b": P[k], "sweep": GC.SWEEPS[si], "a_pose": si % 2,
+                                                                       "swap": False, "algo": "nesterov_prim"}})
     return J
